@@ -49,6 +49,11 @@ def strategy_(g):
         which = g.choice(["p1", "p2", "both"])
         case["p1b"] = other_repr(case["p1"]) if which in ("p1", "both") else case["p1"]
         case["p2b"] = other_repr(case["p2"]) if which in ("p2", "both") else case["p2"]
+    # the second vertex may have been initialised FROM the measurement: one pose object is both edge.estimate and vertex.pose
+    # (its kind is the measurement's kind for every edge type); the values are then equal, of course
+    case["estimate_is_vertex_pose"] = g.choice([False, False, False, True])
+    if case["estimate_is_vertex_pose"]:
+        case["p2"] = {"k": case["z"]["k"], "v": list(case["z"]["v"])}
     # a third state: the measurement and (landmark edges) the sensor offset OBJECTS are edited in place - e.g. a calibration
     # parameter shared by several edges gets a new value - after the edge has been evaluated
     k0, k1, kz, ko = E.kinds_of(case["ek"])
@@ -98,6 +103,9 @@ def check(case, ctx):
     nontriv, S_ = E.classify_edge(case, ctx)
     ctx.nontrivial(nontriv)
     edge, v1, v2 = E.build_edge(case)
+    if case.get("estimate_is_vertex_pose"):
+        ctx.event("estimate-object-is-the-second-vertex-pose")
+        v2.pose = edge.estimate
     if "fixed" in case:
         v1.fixed, v2.fixed = bool(case["fixed"][0]), bool(case["fixed"][1])
         if any(case["fixed"]):
@@ -246,5 +254,7 @@ def check(case, ctx):
             return ctx.fail("jacobian-result-overwritten-by-later-call", "the matrix returned by the first calc_jacobians() call (vertex %d, edge %s) changed during later calls" % (i, ek))
 
     # the vertices were restored bit-exactly by our own probing
+    if case.get("estimate_is_vertex_pose"):
+        return
     if gs.bits(v1.pose) != gs.bits(gs.mk_pose(case["p1"])) or gs.bits(v2.pose) != gs.bits(gs.mk_pose(case["p2"])):
         return ctx.fail("state-changed", "vertex pose changed while evaluating errors/Jacobians")
